@@ -7,7 +7,7 @@ claim("C03",
       "guards on the serving path: whatever is handed to SendPiece is in bounds of a piece that is Done, non-empty, and - "
       "when the client is choking the peer - a piece for which the allowed-fast set answered yes (ghost-tracked Has "
       "result on the peer's own SentAllowedFast set for exactly that piece); the reader forwards only requests of at most "
-      "16 KiB; see evidence for the functions under contract. Partial: cache eviction timing and the "
+      "16 KiB; a piece message is reported complete to the writer only with all requested bytes; see evidence for the functions under contract. Partial: cache eviction timing and the "
       "peer-writer goroutines are outside.",
       "DESIGN.md §4 C03")
 claim("C16",
@@ -60,7 +60,7 @@ claim("C05",
       "Proof of the ordering links that can be stated per function: every data file is opened O_SYNC|O_RDWR (bit-exact), "
       "a piece bit is set only in the handler of a write that returned nil (shared with C01), storage writes happen only "
       "on the piece-writer path; the allocator reports a file that did not exist (HasMissing), which is what makes the "
-      "torrent distrust a stored bitfield; stop() writes the bitfield to the resume db only when no re-check is pending (the bitfield a Verify() discarded is not written back). Partial: crash points, bbolt atomicity and kernel durability are assumptions; this family "
+      "torrent distrust a stored bitfield; stop() writes the bitfield to the resume db only when no re-check is pending (the bitfield a Verify() discarded is not written back); a verification request forgets the bitfield at once, in memory and in the db (ghost-tracked resumer write); when the allocator found a file missing the stored bitfield is forgotten before the files are verified, and the empty bitfield of freshly created files is persisted before any download starts. Partial: crash points, bbolt atomicity and kernel durability are assumptions; this family "
       "cannot kill a process.",
       "DESIGN.md §4 C05")
 
@@ -85,7 +85,7 @@ claim("C08",
       "downloader and the bitfield never index out of range under their representation invariants (which every operation "
       "re-establishes); that the piece downloader never indexes its buffer out of range, never reaches its explicit "
       "panics and only requests or cancels blocks of its piece (representation invariant established by New from the "
-      "block layout). Partial: isolation between peers and deadlock freedom are concurrency properties outside.",
+      "block layout); that extension messages, tracker replies, torrent files and magnet metadata reach the bencode decoder only after a guard accepted exactly those bytes (ghost-tracked), the guard itself never reads out of bounds and terminates, and - bounded stand-in, 9.6 million strings - its verdict agrees with the decoder's grammar: nesting deeper than 64 levels and strings declared longer than the data are refused (the decoder recurses per level and allocates a declared length before reading). Partial: isolation between peers and deadlock freedom are concurrency properties outside.",
       "DESIGN.md §4 C08")
 
 claim("C14",
@@ -96,11 +96,11 @@ claim("C14",
       "DESIGN.md §4 C14")
 
 claim("C17",
-      "Proof of the guard-before-insert obligations at the sites that open connections (accept and dial caps hold in the state in which a handshaker is created) and of the outstanding-request cap (result never exceeds MaxRequestsOut, whatever a peer advertises); that the address queue counts every insertion and every replacement exactly once towards the pushed source (the step that keeps the per-source counters summing to the queue length); that the web-seed slot counter is decremented exactly where an open downloader is closed (closeWebseedDownloader's postcondition, and no other decrement in the handlers except after WebseedStopAt reported a close) and incremented only below WebseedMaxDownloads. For the resource manager (generic code, verified once on its generic body): an immediate grant is made exactly when the amount fits and leaves 0 <= available <= limit, its assertion cannot fire, the candidate picked for a deferred grant fits into what is available, removing a queued request keeps the others' amounts, and requests and releases are sent with non-negative amounts. Partial: token buckets, RAM reservations across goroutines, the manager's loop as a whole (queued amounts stay non-negative on insertion is not proved) and the agreement between the queue's slice and its external btree are outside (see evidence).",
+      "Proof of the guard-before-insert obligations at the sites that open connections (accept and dial caps hold in the state in which a handshaker is created) and of the outstanding-request cap (result never exceeds MaxRequestsOut, whatever a peer advertises); that the address queue counts every insertion and every replacement exactly once towards the pushed source (the step that keeps the per-source counters summing to the queue length); that the web-seed slot counter is decremented exactly where an open downloader is closed (closeWebseedDownloader's postcondition, and no other decrement in the handlers except after WebseedStopAt reported a close) and incremented only below WebseedMaxDownloads. For the resource manager (generic code, verified once on its generic body): an immediate grant is made exactly when the amount fits and leaves 0 <= available <= limit, its assertion cannot fire, the candidate picked for a deferred grant fits into what is available, removing a queued request keeps the others' amounts, and requests and releases are sent with non-negative amounts. A reject re-queues a block only if it was pending (the list of blocks to request cannot outgrow the piece); an item too large for the read cache has no timer to reset (cache sizes below the block size cannot crash a reader). Partial: token buckets, RAM reservations across goroutines, the manager's loop as a whole (queued amounts stay non-negative on insertion is not proved) and the agreement between the queue's slice and its external btree are outside (see evidence).",
       "DESIGN.md §4 C17")
 
 claim("C18",
-      "Proof of the admission guards at every site that creates a handshaker (not connected, not banned, not blocked when the blocklist applies) and of the address filters in front of the candidate queue. Also proved: every entry of the address queue's time-ordered slice records its own position after Push, Pop, the nil-compaction (in-place, loop invariant) and the trimming step, with slices.SortFunc modelled as an injective rearrangement, so Pop clears the slot of the address it removed. Partial: the segment tree is recursive pointer code (not under contract); that the external btree holds exactly the slice's entries is assumed, not proved. The blocklist looks up exactly the big-endian value of the four address bytes (non-IPv4 addresses are not looked up), and private ranges are never taken for the host's public address.",
+      "Proof of the admission guards at every site that creates a handshaker (not connected, not banned, not blocked when the blocklist applies) and of the address filters in front of the candidate queue. Also proved: every entry of the address queue's time-ordered slice records its own position after Push, Pop, the nil-compaction (in-place, loop invariant) and the trimming step, with slices.SortFunc modelled as an injective rearrangement, so Pop clears the slot of the address it removed. The queue orders entries of equal BEP 40 priority by IP and port, so distinct addresses never displace each other; every address inserted passed all admission filters (port, unspecified, own loopback port, own external IP, interface addresses, blocklist; ghost-tracked results). Partial: the segment tree is recursive pointer code (not under contract); that the external btree holds exactly the slice's entries is assumed, not proved. The blocklist looks up exactly the big-endian value of the four address bytes (non-IPv4 addresses are not looked up), and private ranges are never taken for the host's public address.",
       "DESIGN.md §4 C18")
 
 claim("C07",
@@ -118,7 +118,12 @@ claim("C04",
       "remembered as connected, and puts the torrent into Stopping; start() never leaves the stop announcer set (a start "
       "while Stopping takes effect); a verification request ends stopped: a failed re-check is not started over, no "
       "download is started while a re-check is pending, a request without metadata leaves none pending; stop-after "
-      "options are consumed. Bounded stand-ins (labelled, not counted): an allocator whose result is not received leaves "
+      "options are consumed; a Stop() from the user also ends a pending re-check; the result of a piece writer that was "
+      "started in a previous run is ignored (bitfield set and stop(err) only for a piece object of the current run); "
+      "completed bytes follow from bitfield and metainfo alone; an added tracker gets its announcer only while "
+      "announcers run; loop-owned state is reached only through the event loop: every function that writes a field of "
+      "the torrent struct, and the handlers that update its maps, are reachable from goroutine entries and API entry "
+      "points only via run() (whole-program call-graph dominance check). Bounded stand-ins (labelled, not counted): an allocator whose result is not received leaves "
       "no file open (99 cases); closing an incoming handshaker does not wait for the handshake timeout (6 cases). "
       "Partial: liveness (every command returns, convergence with a seed), timing and cross-goroutine orderings are "
       "outside function contracts; see evidence for the exact obligations.",
